@@ -29,13 +29,16 @@ def _sqrtm(k):
 
 
 def _weights(solver, grid, parts):
-    """the four weight arrays W[a,i,j,k] exactly as getDeltas builds them (recomputed with the grid's public getters)."""
+    """the four weight arrays W[a,i,j,k] of the defining integrals in compact coordinates."""
     field = solver.background.fieldProfiles.takeSlice(1, -1, axis=solver.background.fieldProfiles.overFieldPoints)
-    pz = grid.pzValues[None, None, :, None]
-    pp = grid.ppValues[None, None, None, :]
+    # momenta and Jacobians from the ANALYTIC momentum maps at the grid's declared scale (not from the grid's cached arrays)
+    Tm = grid.momentumFalloffT
+    rz, rp = np.asarray(grid.rzValues), np.asarray(grid.rpValues)
+    pz = (2 * Tm * np.arctanh(rz))[None, None, :, None]
+    pp = (-Tm * np.log((1 - rp) / 2))[None, None, None, :]
     msq = np.array([p.msqVacuum(field) for p in parts])[:, :, None, None]
     E = np.sqrt(msq + pz ** 2 + pp ** 2)
-    _, dpz, dpp = grid.getCompactificationDerivatives()
+    dpz, dpp = 2 * Tm / (1 - rz ** 2), Tm / (1 - rp)
     I = dpz[None, None, :, None] * dpp[None, None, None, :] * pp / (4 * np.pi ** 2 * E)
     return {"Delta00": I, "Delta02": pz ** 2 * I, "Delta20": E ** 2 * I, "Delta11": E * pz * I}
 
@@ -80,6 +83,12 @@ def search(rep: C.Report, tier: str, broken):
         for Tscale, y2 in (((1.0, 0.3), (0.05, 2.0)) if tier == "quick" else ((1.0, 0.3), (0.05, 2.0), (30.0, 0.0), (1.0, 5.0))):
             bM, bN = bases[(N + int(y2 * 10)) % 4] if tier == "quick" else r.choice(bases)
             solver, grid, parts, clean = B.make_solver(M=4, N=N, basisM=bM, basisN=bN, Tscale=Tscale, y2=(y2,))
+            rescaled = (N + int(10 * y2)) % 2 == 1
+            if rescaled:
+                # the same grid reached through a rescaling history: moments must be those of the new scale
+                grid.changeMomentumFalloffScale(Tscale * 7.3)
+                grid.changeMomentumFalloffScale(Tscale * r.choice((0.4, 2.5)))
+                rep.count("grids rescaled with changeMomentumFalloffScale")
 
             def to_solver_basis(dFcard, solver=solver, grid=grid):
                 """the deviation is specified by its grid values; the solver takes coefficients in ITS basis"""
@@ -112,7 +121,7 @@ def search(rep: C.Report, tier: str, broken):
                     rep.count(f"search {nm}")
                     if np.max(np.abs(got - want)) > 1e-9 * sc:
                         rep.violation(f"{nm} is not the exact momentum integral on the exactness family",
-                                      {"N": N, "momentumFalloffT": Tscale, "y2": y2, "moment": nm, "basisM": bM, "basisN": bN, "poly_rz": ca, "poly_rp": cb,
+                                      {"N": N, "momentumFalloffT": grid.momentumFalloffT, "constructed_with": Tscale, "rescaled_by_changeMomentumFalloffScale": rescaled, "y2": y2, "moment": nm, "basisM": bM, "basisN": bN, "poly_rz": ca, "poly_rp": cb,
                                        "got": got.tolist(), "exact": want}, finding_key=f"C13:{nm}")
                     # linearity
                     dF2 = np.array([r.uniform(-1, 1) for _ in range(3 * n * n)]).reshape(1, 3, n, n)
